@@ -21,7 +21,12 @@ var IntPool []int
 var FloatPool = []float64{0, math.Copysign(0, -1), 1, -1, -3, 2, 10, 1e5, 999999, 1e6, 1000001, 9007199254740992, 1e15, 1e16, 1e21, 1e22, 1e300, -1e300,
 	999999.9999999999, 1e-6, 9.999999999999999e-7, 1.0000000000000002e-6, 1e-7, 5e-324, 2.2250738585072014e-308, 2.225073858507201e-308,
 	math.MaxFloat64, -math.MaxFloat64, 0.1, 0.2, 0.30000000000000004, 1.0 / 3.0, 3.14, 1.6e-8, 0.5, -0.5, 1.5, 123456.789,
-	1.7976931348623157e308, 4.9406564584124654e-324, 1.2345678901234567, 9007199254740993, 0.000001, 100000.5, 1e-5}
+	1.7976931348623157e308, 4.9406564584124654e-324, 1.2345678901234567, 9007199254740993, 0.000001, 100000.5, 1e-5,
+	// whole values around the ends of the 32 / 63 / 64 bit integer ranges with a short decimal notation
+	9.3e18, -9.3e18, 9e18, 9.5e18, 1e19, 9.99999e18, 9223372036854775808, -9223372036854775808, 18446744073709551616, 1.8e19, 2e19, 4.611686018427388e18, 4.7e18,
+	2147483648, -2147483649, 4294967296, 2.2e9, 4.3e9, 1e18, 1e17, 5e17,
+	// one ulp next to short decimals
+	63.955057000000004, 0.30000000000000004, 1.0000000000000002, 2.675, 1.005, 8.41, 0.57, 1234.5678000000002}
 
 // StrPool: value strings aimed at the serializer/parser thin slices. Built with numeric code points so
 // that no tool rewrites escapes in this source file.
